@@ -7,6 +7,10 @@ import (
 	"mltwist/pkg/model"
 )
 
+// maxSegmentSize is the maximal size of a single program segment in memory
+// which is loaded.
+const maxSegmentSize = 1 << 30
+
 type Parser struct {
 	f *elf.File
 }
@@ -61,6 +65,18 @@ func (p *Parser) Memory() (*Memory, error) {
 			return nil, fmt.Errorf(
 				"program section in memory less then in file: %d < %d",
 				p.Memsz, p.Filesz)
+		}
+
+		// Size of a segment comes from the file, so it has to be checked
+		// before it's used as size of an allocation.
+		if p.Memsz > maxSegmentSize {
+			return nil, fmt.Errorf(
+				"program section is too big: %d > %d", p.Memsz, maxSegmentSize)
+		}
+		if p.Vaddr+p.Memsz < p.Vaddr {
+			return nil, fmt.Errorf(
+				"program section [0x%x, +%d) wraps around the address space",
+				p.Vaddr, p.Memsz)
 		}
 
 		data, err := io.ReadAll(p.Open())
